@@ -47,7 +47,7 @@ RULE = ("annotation terms from the grammar {int,bool,float,str,bytes,NoneType,An
         "from VERIF_SEED related by bool/int flips under a chosen constructor or 1-3 local edits (widen, narrow, wrap, "
         "unwrap, arity, constructor swap) or unrelated; each pair: is_type_compatible vs the reference relation "
         "(one-sided when the source contains a TypeVar) + algebraic laws on is_type_compatible alone; (iii) 2-3 function "
-        "pipelines from 14 wiring templates (direct, element-wise map, whole/colon/partial reduction, tuple outputs, "
+        "pipelines from 15 wiring templates (direct, element-wise map, whole/unlisted/colon/partial reduction, tuple outputs, "
         "renames, fan-out, join) with such annotations, constructed with validate_type_annotations on and off; "
         "non-trivial pair = not identical and neither side Any/NoAnnotation; distinct = distinct (source, target) terms / "
         "distinct (template, annotations)")
@@ -354,6 +354,9 @@ TEMPLATES = {
     "elem2d": ([_f("f", ["x", "u"], ["y"], "x[i], u[j] -> y[i, j]"), _f("g", ["y"], ["z"], "y[i, j] -> z[i, j]")],
                [(0, "y", 1, "y", "elementwise")]),
     "reduce2": ([_f("f", ["x"], ["y"], "x[i] -> y[i]"), _f("g", ["y"], ["z"])], [(0, "y", 1, "y", "reduce-whole")]),
+    # the consumer has its own MapSpec, which does not list the mapped output at all: it receives the whole array
+    "unlisted2": ([_f("f", ["x"], ["y"], "x[i] -> y[i]"), _f("g", ["y", "w"], ["z"], "w[k] -> z[k]")],
+                  [(0, "y", 1, "y", "reduce-unlisted")]),
     "colon2": ([_f("f", ["x"], ["y"], "x[i] -> y[i]"), _f("g", ["y", "w"], ["z"], "y[:], w[k] -> z[k]")],
                [(0, "y", 1, "y", "reduce-colon")]),
     "partial2": ([_f("f", ["x", "u"], ["y"], "x[i], u[j] -> y[i, j]"), _f("g", ["y"], ["z"], "y[i, :] -> z[i]")],
@@ -722,7 +725,7 @@ def finalize(agg, tier, seed):
     need("pipelines_with_incompatible_edge", 300 if q else 4000)
     for t in TEMPLATE_NAMES:
         need(f"pipelines_{t}", 100 if q else 1500)
-    for k in ["direct", "elementwise", "reduce-whole", "reduce-colon", "reduce-partial", "direct+tupleout",
+    for k in ["direct", "elementwise", "reduce-whole", "reduce-unlisted", "reduce-colon", "reduce-partial", "direct+tupleout",
               "elementwise+tupleout", "reduce-whole+tupleout", "direct+renamed"]:
         need(f"edges_{k}_compatible", 25 if q else 300)
         need(f"edges_{k}_incompatible", 12 if q else 150)
